@@ -73,6 +73,8 @@ func workerEnv() *env.Env {
 	e.Define("arr", func(a [2]int64) int64 { return a[0] })
 	e.Define("takesInt", func(i int64, s string) string { return s })
 	e.Define("takesStrs", func(s ...string) int { return len(s) })
+	e.Define("takesPtr", func(p *int32) bool { return p == nil })
+	e.Define("takesPtrs", func(ps ...*string) int { return len(ps) })
 	e.Define("cb", func(f func(int64) int64) int64 { return f(3) })
 	e.Define("each", func(l []interface{}, f func(interface{}) interface{}) []interface{} {
 		out := make([]interface{}, 0, len(l))
@@ -338,6 +340,28 @@ func execInWorker1(src string) outcome {
 	}
 }
 
+// faultingAnkoFrame returns the innermost anko frame of the goroutine that detected a fatal
+// fault (the first goroutine block of the traceback).
+func faultingAnkoFrame(stderr string) string {
+	i := strings.Index(stderr, "\ngoroutine ")
+	if i < 0 {
+		return ""
+	}
+	block := stderr[i+1:]
+	if j := strings.Index(block, "\n\n"); j >= 0 {
+		block = block[:j]
+	}
+	for _, l := range strings.Split(block, "\n") {
+		if strings.HasPrefix(l, "github.com/mattn/anko/") {
+			if k := strings.LastIndex(l, "("); k > 0 {
+				l = l[:k]
+			}
+			return l
+		}
+	}
+	return ""
+}
+
 func classifyDeath(stderr string) outcome {
 	first := ""
 	for _, l := range strings.Split(stderr, "\n") {
@@ -352,6 +376,12 @@ func classifyDeath(stderr string) outcome {
 	case strings.Contains(stderr, "stack overflow") || strings.Contains(stderr, "goroutine stack exceeds"):
 		return outcome{Status: "stack", Msg: first}
 	case strings.Contains(stderr, "concurrent map"):
+		// Two script goroutines sharing one script container unsynchronised is outside the
+		// guarantee; the interpreter's own scope maps (package env, guarded by its locks) are not
+		// script containers: a fault detected inside an env method is a crash of the host.
+		if site := faultingAnkoFrame(stderr); strings.HasPrefix(site, "github.com/mattn/anko/env.") {
+			return outcome{Status: "crash", Msg: first + " [interpreter scope tables]\n" + site}
+		}
 		return outcome{Status: "concurrent-map", Msg: first}
 	case strings.HasPrefix(first, "panic:") || strings.HasPrefix(first, "fatal error:"):
 		return outcome{Status: "crash", Msg: first + "\n" + firstAnkoFrames(stderr)}
